@@ -1400,7 +1400,10 @@ int ov_raw_seek(OggVorbis_File *vf,ogg_int64_t pos){
           if(ogg_page_bos(&og)){
             /* we traversed */
             _decode_clear(vf); /* clear out stream state */
-            ogg_stream_clear(&work_os);
+            ogg_stream_reset(&work_os); /* drop the old link's data but
+                                           keep the scratch stream
+                                           usable; a cleared state
+                                           rejects every later call */
           } /* else, do nothing; next loop will scoop another page */
         }
       }
